@@ -84,6 +84,11 @@ def selftest(tier):
     ok &= expect("SmallVec.tla rejects a leaked element (never-dropped)", v["leak"]["verdict"] == "rejected" and "never-dropped" in v["leak"]["why"])
     ok &= expect("SmallVec.tla rejects a double drop", v["double-drop"]["verdict"] == "rejected" and "dropped-twice" in v["double-drop"]["why"])
     ok &= expect("SmallVec.tla rejects a slice view that differs from Vec", v["view"]["verdict"] == "rejected")
+    # ---- MCSmallVec: the compaction loops as they were before the repair must be refuted
+    res = tlc.run_tlc("MCSmallVec", env={"N": 2, "DEPTH": 6, "LEAK": 1, "GEN": 0}, workers=4, timeout=300,
+                      allow_violation=True)
+    ok &= expect("TLC refutes ExactlyOnce on the implementation-level model with the pre-repair retain/dedup loops",
+                 res.violated == "ExactlyOnce", str(res.violated))
     # ---- a removed hook must fail closed: a harness that does not build is a tool error, not a pass
     print("selftest: %s" % ("all expectations hold" if ok else "SOME EXPECTATIONS FAILED"), flush=True)
     return 0 if ok else 2
